@@ -710,6 +710,6 @@ func main() {
 			"(b) random partitions with running offset, (c) CipherReader over chunked sources x caller buffer sizes x mid-stream Reset, (d) CipherWriter over random write partitions incl. short-write destinations, (d'') a cipher reader over a source that reports io.EOF between instalments of one payload (running offset kept), (d') cipher readers stacked on cipher readers that already delivered 0..n bytes, and writers on writers (each layer = XOR with its own key from its own offset 0), (d''') one CipherWriter / CipherReader value (zero value or constructed) re-used for 2-5 streams through Reset(new destination/source, new key) after stopping at any offset, (e) the six frame mask/unmask helpers x all lengths x 4 keys, the masking helpers also on frames whose header already says masked, and all six on frames whose Header.Length is unset or stale (the payload is what gets masked). " +
 			"Non-trivial = output compared byte-for-byte with the naive XOR reference; distinct = (length, offset mod 4, alignment, key kind) / (length class, partition size, plan, buffer) classes. Built with -race (checkptr on).",
 		Assumptions: []string{"reference ref.Mask is the one-line XOR of RFC 6455 §5.3", "offsets near MaxInt are outside what a stream can reach and are not claimed"},
-		Subs:        []mon.Sub{subGrid(), subChunks(), subReader(), subWriter(), subStaged(), subStacked(), subReuse(), subFrames(), subGuardPage(), subAdjacent(), subLongStream()},
+		Subs:        []mon.Sub{subGrid(), subChunks(), subReader(), subWriter(), subStaged(), subStacked(), subReuse(), subFrames(), subGuardPage(), subAdjacent(), subLongStream(), subCopiedWriter()},
 	})
 }
